@@ -1,6 +1,470 @@
-//! C06 harness commands (stub).
-use std::io::Write;
+//! C06: every input yields output or a diagnostic — no crash, no hang.
+//!
+//! `hx c06 inproc [timeout_ms]`
+//!     case line: `<id> <files...>`   (files as in proc::decode_files: one `<enc content>` or `root=<enc> <enc path>=<enc content> ...`)
+//!     runs, in-process on a FakeFileSystem, each under catch_unwind and a watchdog:
+//!       parse (tracked + plain decoration, every ParseError rendered), format, load, accounts,
+//!       process (+ balance, date-ranged balance, postings/register, rendered error)
+//!     record: `<id> parse=<class> format=<class> load=<class> accounts=<class> process=<class> [tree=<sexp>] ms=<n>`
+//!       class = `ok:<detail>` | `err:<Kind>` | `panic:<enc msg>` | `timeout`
+//! `hx c06 cmd <workdir> [timeout_ms]`
+//!     case line: `<id> <cmdspec> <files...>`; files are written below `<workdir>/<id>/`, then the *command code of the
+//!     binary* (`okane::cmd::Cli`, clap parsing included) runs in-process on the real file system.
+//! `hx c06 cli <okane binary> <workdir> [timeout_ms] [jobs]`
+//!     same case lines; spawns the real binary as a child process per case, kills it on timeout.
+//!     record: `<id> status=<exit:N|signal:N|timeout> ms=<n> out=<bytes of stdout> err=<enc first 6000 bytes of stderr>`
+//!   cmdspec: comma separated, percent-encoded argv after the program name; `@` stands for the root file's path.
+use std::io::{BufRead, Write};
+use std::path::{Path, PathBuf};
+use std::sync::mpsc;
+use std::time::{Duration, Instant};
 
-pub fn run(_args: &[String], _out: &mut dyn Write) -> i32 {
+use bumpalo::Bump;
+use okane_core::report::{self, query, ReportContext};
+use okane_core::{load, parse, syntax};
+
+use crate::proc;
+use crate::sx::{self, enc};
+
+const STACK: usize = 8 * 1024 * 1024; // same as the main thread of the binary
+
+fn class_of<T>(r: Result<Result<T, String>, String>, ok: impl Fn(&T) -> String) -> String {
+    match r {
+        Err(msg) => format!("panic:{}", enc(&msg)),
+        Ok(Err(kind)) => format!("err:{}", kind),
+        Ok(Ok(v)) => format!("ok:{}", ok(&v)),
+    }
+}
+
+fn first_word(dbg: &str) -> String {
+    dbg.split(['(', ' ', '{']).next().unwrap_or("?").to_string()
+}
+
+/// parse with both decorations; every error is rendered (Display) as the binary would do.
+fn do_parse(text: &str) -> Result<usize, String> {
+    let opts = parse::ParseOptions::default();
+    let mut n = 0usize;
+    let mut err: Option<String> = None;
+    for r in parse::parse_ledger::<syntax::tracked::Tracking>(&opts, text) {
+        match r {
+            Ok((ctx, _e)) => {
+                let _ = ctx.compute_line_start();
+                let _ = ctx.as_str();
+                n += 1;
+            }
+            Err(e) => {
+                let shown = e.to_string();
+                err = Some(format!("Parse/{}", shown.len().min(1)));
+                break;
+            }
+        }
+    }
+    let mut m = 0usize;
+    let mut err2 = false;
+    for r in parse::parse_ledger::<syntax::plain::Ident>(&opts, text) {
+        match r {
+            Ok(_) => m += 1,
+            Err(e) => {
+                let _ = e.to_string();
+                err2 = true;
+                break;
+            }
+        }
+    }
+    if err.is_some() != err2 || n != m {
+        // the two decorations must accept the same texts
+        return Err(format!("DecorationMismatch/{}/{}", n, m));
+    }
+    match err {
+        Some(e) => Err(e),
+        None => Ok(n),
+    }
+}
+
+fn do_format(text: &str) -> Result<usize, String> {
+    let mut out: Vec<u8> = Vec::new();
+    let mut r = text.as_bytes();
+    match okane_core::format::FormatOptions::new().format(&mut r, &mut out) {
+        Ok(()) => Ok(out.len()),
+        Err(e) => {
+            let _ = proc::render_chain(&e);
+            Err(first_word(&format!("{:?}", e)))
+        }
+    }
+}
+
+fn do_load(files: &proc::Files, root: &str) -> Result<usize, String> {
+    let loader = proc::fake_loader(files, root);
+    let mut n = 0usize;
+    let r = loader.load(|_p, pctx, _e: &syntax::tracked::LedgerEntry| {
+        let _ = pctx.compute_line_start();
+        let _ = pctx.as_str();
+        n += 1;
+        Ok::<(), load::LoadError>(())
+    });
+    match r {
+        Ok(()) => Ok(n),
+        Err(e) => {
+            let _ = proc::render_chain(&e);
+            Err(proc::load_err_kind(&e))
+        }
+    }
+}
+
+fn do_accounts(files: &proc::Files, root: &str) -> Result<usize, String> {
+    let arena = Bump::new();
+    let mut ctx = ReportContext::new(&arena);
+    match report::accounts(&mut ctx, proc::fake_loader(files, root)) {
+        Ok(v) => Ok(v.len()),
+        Err(e) => {
+            let _ = proc::render_chain(&e);
+            Err(proc::load_err_kind(&e))
+        }
+    }
+}
+
+/// process + the queries the commands run; returns a short description
+fn do_process(files: &proc::Files, root: &str) -> Result<String, String> {
+    let arena = Bump::new();
+    let mut ctx = ReportContext::new(&arena);
+    let res = report::process(&mut ctx, proc::fake_loader(files, root), &report::ProcessOptions::default());
+    match res {
+        Err(e) => {
+            let _ = proc::render_chain(&e);
+            let kind = match &e {
+                report::ReportError::BookKeep(be, _) => format!("BookKeep/{}", first_word(&format!("{:?}", be))),
+                report::ReportError::Load(le) => format!("Load/{}", proc::load_err_kind(le)),
+                report::ReportError::PriceDB(_) => "PriceDB".to_string(),
+            };
+            Err(kind)
+        }
+        Ok(mut ledger) => {
+            let ntx = ledger.transactions().count();
+            // balance (raw), balance over a date range (recompute path), register
+            let mut lines = 0usize;
+            {
+                let b = ledger.balance(&ctx, &query::BalanceQuery::default());
+                if let Ok(b) = b {
+                    for (a, amt) in b.into_owned().into_vec() {
+                        let _ = format!("{}: {}", a.as_str(), amt.as_inline_display());
+                        lines += 1;
+                    }
+                }
+            }
+            {
+                let q = query::BalanceQuery {
+                    conversion: None,
+                    date_range: query::DateRange {
+                        start: chrono::NaiveDate::from_ymd_opt(2024, 1, 2),
+                        end: chrono::NaiveDate::from_ymd_opt(2030, 1, 1),
+                    },
+                };
+                if let Ok(b) = ledger.balance(&ctx, &q) {
+                    for (a, amt) in b.into_owned().into_vec() {
+                        let _ = format!("{}: {}", a.as_str(), amt.as_inline_display());
+                        lines += 1;
+                    }
+                }
+            }
+            {
+                let mut bal = report::Amount::default();
+                for p in ledger.postings(&ctx, &query::PostingQuery { account: None }) {
+                    bal += p.amount.clone();
+                    let _ = format!("{} {} {}", p.account.as_str(), p.amount.as_inline_display(), bal.as_inline_display());
+                    lines += 1;
+                }
+            }
+            Ok(format!("{}/{}", ntx, lines))
+        }
+    }
+}
+
+/// Runs `f` on a fresh thread (8 MiB stack) under catch_unwind; `None` = still running after `timeout`.
+fn guarded<T: Send + 'static>(timeout: Duration, f: impl FnOnce() -> T + Send + std::panic::UnwindSafe + 'static) -> Option<Result<T, String>> {
+    let (tx, rx) = mpsc::channel();
+    let h = std::thread::Builder::new().stack_size(STACK).spawn(move || {
+        let r = sx::catch(f);
+        let _ = tx.send(r);
+    });
+    if h.is_err() {
+        return Some(Err("cannot spawn thread".to_string()));
+    }
+    match rx.recv_timeout(timeout) {
+        Ok(r) => Some(r),
+        Err(_) => None, // the thread is abandoned
+    }
+}
+
+fn timed<T: Send + 'static>(timeout: Duration, f: impl FnOnce() -> Result<T, String> + Send + std::panic::UnwindSafe + 'static, ok: impl Fn(&T) -> String) -> String {
+    match guarded(timeout, f) {
+        None => "timeout".to_string(),
+        Some(r) => class_of(r, ok),
+    }
+}
+
+fn inproc(args: &[String], out: &mut dyn Write) -> i32 {
+    let timeout = Duration::from_millis(args.first().and_then(|s| s.parse().ok()).unwrap_or(10_000));
+    let stdin = std::io::stdin();
+    for line in stdin.lock().lines() {
+        let line = line.unwrap();
+        let ws: Vec<&str> = line.split(' ').filter(|w| !w.is_empty()).collect();
+        if ws.len() < 2 {
+            writeln!(out, "bad-case").unwrap();
+            continue;
+        }
+        let t0 = Instant::now();
+        let (files, root) = proc::decode_files(&ws[1..]);
+        let root_text = files.iter().find(|(p, _)| *p == root).map(|(_, c)| c.clone()).unwrap_or_default();
+        let t1 = root_text.clone();
+        let p = timed(timeout, move || do_parse(&t1), |n| n.to_string());
+        let t2 = root_text.clone();
+        let f = timed(timeout, move || do_format(&t2), |n| n.to_string());
+        let (f1, r1) = (files.clone(), root.clone());
+        let l = timed(timeout, move || do_load(&f1, &r1), |n| n.to_string());
+        let (f2, r2) = (files.clone(), root.clone());
+        let a = timed(timeout, move || do_accounts(&f2, &r2), |n| n.to_string());
+        let (f3, r3) = (files.clone(), root.clone());
+        let pr = timed(timeout, move || do_process(&f3, &r3), |s| s.clone());
+        // the tree the loader delivered, for the model (only when loading succeeded)
+        let mut tree_s = String::new();
+        if l.starts_with("ok:") {
+            let (f4, r4) = (files.clone(), root.clone());
+            if let Some(Ok(Ok(loaded))) = guarded(timeout, move || proc::load_entries(&f4, &r4)) {
+                let parts: Vec<&str> = loaded.entries.iter().map(|e| e.3.as_str()).collect();
+                tree_s = format!(" tree=({})", parts.join(" "));
+            }
+        }
+        writeln!(
+            out,
+            "{} parse={} format={} load={} accounts={} process={}{} ms={}",
+            ws[0],
+            p,
+            f,
+            l,
+            a,
+            pr,
+            tree_s,
+            t0.elapsed().as_millis()
+        )
+        .unwrap();
+        out.flush().unwrap();
+    }
     0
+}
+
+// ------------------------------------------------------------------------------------------------
+// real file system
+
+pub struct CliCase {
+    pub id: String,
+    pub argv: Vec<String>,
+    pub dir: PathBuf,
+}
+
+/// writes the case's files below `<workdir>/<id>/` and builds the argv (`@` -> root path)
+pub fn setup_case(workdir: &Path, ws: &[&str]) -> Option<CliCase> {
+    if ws.len() < 3 {
+        return None;
+    }
+    let id = ws[0].to_string();
+    let dir = workdir.join(&id);
+    let _ = std::fs::remove_dir_all(&dir);
+    std::fs::create_dir_all(&dir).ok()?;
+    let mut root = String::new();
+    let mut single = 0;
+    for w in &ws[2..] {
+        if let Some((k, v)) = w.split_once('=') {
+            if k == "root" {
+                root = sx::dec(v)?;
+            } else {
+                let rel = sx::dec(k)?;
+                let p = dir.join(rel.trim_start_matches('/'));
+                if let Some(par) = p.parent() {
+                    std::fs::create_dir_all(par).ok()?;
+                }
+                std::fs::write(&p, sx::dec_bytes(v)?).ok()?;
+            }
+        } else {
+            single += 1;
+            root = "main.ledger".to_string();
+            std::fs::write(dir.join("main.ledger"), sx::dec_bytes(w)?).ok()?;
+        }
+    }
+    if single > 1 {
+        return None;
+    }
+    let root_path = dir.join(root.trim_start_matches('/'));
+    let mut argv = Vec::new();
+    for a in ws[1].split(',') {
+        let a = sx::dec(a)?;
+        if a == "@" {
+            argv.push(root_path.display().to_string());
+        } else if let Some(rest) = a.strip_prefix("@/") {
+            argv.push(dir.join(rest).display().to_string());
+        } else {
+            argv.push(a);
+        }
+    }
+    Some(CliCase { id, argv, dir })
+}
+
+pub struct CliResult {
+    pub status: String,
+    pub ms: u128,
+    pub out_len: usize,
+    pub stderr: Vec<u8>,
+    pub stdout: Vec<u8>,
+}
+
+pub fn run_child(okane: &str, case: &CliCase, timeout: Duration) -> CliResult {
+    use std::os::unix::process::ExitStatusExt;
+    use std::process::{Command, Stdio};
+    let so = case.dir.join(".stdout");
+    let se = case.dir.join(".stderr");
+    let t0 = Instant::now();
+    let child = Command::new(okane)
+        .args(&case.argv)
+        .current_dir(&case.dir)
+        .env_remove("RUST_LOG")
+        .env("RUST_BACKTRACE", "0")
+        .stdin(Stdio::null())
+        .stdout(std::fs::File::create(&so).unwrap())
+        .stderr(std::fs::File::create(&se).unwrap())
+        .spawn();
+    let mut child = match child {
+        Ok(c) => c,
+        Err(e) => {
+            return CliResult { status: format!("spawn-error:{}", enc(&e.to_string())), ms: 0, out_len: 0, stderr: vec![], stdout: vec![] }
+        }
+    };
+    let mut sleep = Duration::from_micros(200);
+    let status = loop {
+        match child.try_wait() {
+            Ok(Some(st)) => {
+                break match (st.code(), st.signal()) {
+                    (Some(c), _) => format!("exit:{}", c),
+                    (None, Some(s)) => format!("signal:{}", s),
+                    _ => "unknown".to_string(),
+                }
+            }
+            Ok(None) => {
+                if t0.elapsed() > timeout {
+                    let _ = child.kill();
+                    let _ = child.wait();
+                    break "timeout".to_string();
+                }
+                std::thread::sleep(sleep);
+                if sleep < Duration::from_millis(20) {
+                    sleep *= 2;
+                }
+            }
+            Err(e) => break format!("wait-error:{}", enc(&e.to_string())),
+        }
+    };
+    let ms = t0.elapsed().as_millis();
+    let stdout = std::fs::read(&so).unwrap_or_default();
+    let stderr = std::fs::read(&se).unwrap_or_default();
+    CliResult { status, ms, out_len: stdout.len(), stderr, stdout }
+}
+
+fn cli(args: &[String], out: &mut dyn Write) -> i32 {
+    if args.len() < 2 {
+        eprintln!("usage: hx c06 cli <okane> <workdir> [timeout_ms] [jobs]");
+        return 2;
+    }
+    let okane = args[0].clone();
+    let workdir = PathBuf::from(&args[1]);
+    let timeout = Duration::from_millis(args.get(2).and_then(|s| s.parse().ok()).unwrap_or(10_000));
+    let jobs: usize = args.get(3).and_then(|s| s.parse().ok()).unwrap_or(8);
+    std::fs::create_dir_all(&workdir).unwrap();
+    let lines: Vec<String> = std::io::stdin().lock().lines().map(|l| l.unwrap()).collect();
+    let n = lines.len();
+    let next = std::sync::atomic::AtomicUsize::new(0);
+    let results: Vec<std::sync::Mutex<Option<String>>> = (0..n).map(|_| std::sync::Mutex::new(None)).collect();
+    std::thread::scope(|s| {
+        for _ in 0..jobs.max(1) {
+            s.spawn(|| loop {
+                let i = next.fetch_add(1, std::sync::atomic::Ordering::SeqCst);
+                if i >= n {
+                    break;
+                }
+                let ws: Vec<&str> = lines[i].split(' ').filter(|w| !w.is_empty()).collect();
+                let rec = match setup_case(&workdir, &ws) {
+                    None => format!("{} bad-case", ws.first().unwrap_or(&"?")),
+                    Some(case) => {
+                        let r = run_child(&okane, &case, timeout);
+                        let _ = std::fs::remove_dir_all(&case.dir);
+                        let cut = r.stderr.len().min(6000);
+                        format!("{} status={} ms={} out={} err={}", case.id, r.status, r.ms, r.out_len, sx::enc_bytes(&r.stderr[..cut]))
+                    }
+                };
+                *results[i].lock().unwrap() = Some(rec);
+            });
+        }
+    });
+    for r in results {
+        writeln!(out, "{}", r.into_inner().unwrap().unwrap_or_else(|| "missing".to_string())).unwrap();
+    }
+    0
+}
+
+/// the binary's command code, in-process, on real files
+fn cmd(args: &[String], out: &mut dyn Write) -> i32 {
+    use clap::Parser as _;
+    if args.is_empty() {
+        eprintln!("usage: hx c06 cmd <workdir> [timeout_ms]");
+        return 2;
+    }
+    let workdir = PathBuf::from(&args[0]);
+    let timeout = Duration::from_millis(args.get(1).and_then(|s| s.parse().ok()).unwrap_or(10_000));
+    std::fs::create_dir_all(&workdir).unwrap();
+    let stdin = std::io::stdin();
+    for line in stdin.lock().lines() {
+        let line = line.unwrap();
+        let ws: Vec<&str> = line.split(' ').filter(|w| !w.is_empty()).collect();
+        let case = match setup_case(&workdir, &ws) {
+            None => {
+                writeln!(out, "{} bad-case", ws.first().unwrap_or(&"?")).unwrap();
+                continue;
+            }
+            Some(c) => c,
+        };
+        let t0 = Instant::now();
+        let mut argv = vec!["okane".to_string()];
+        argv.extend(case.argv.iter().cloned());
+        let r = guarded(timeout, move || {
+            let cli = match okane::cmd::Cli::try_parse_from(argv) {
+                Ok(c) => c,
+                Err(e) => return Err(format!("Usage/{}", e.kind())),
+            };
+            let mut sink: Vec<u8> = Vec::new();
+            match cli.run(&mut sink) {
+                Ok(()) => Ok(sink.len()),
+                Err(e) => {
+                    let _ = proc::render_chain(&e);
+                    Err(first_word(&format!("{:?}", e)))
+                }
+            }
+        });
+        let class = match r {
+            None => "timeout".to_string(),
+            Some(r) => class_of(r, |n| n.to_string()),
+        };
+        let _ = std::fs::remove_dir_all(&case.dir);
+        writeln!(out, "{} status={} ms={}", case.id, class, t0.elapsed().as_millis()).unwrap();
+        out.flush().unwrap();
+    }
+    0
+}
+
+pub fn run(args: &[String], out: &mut dyn Write) -> i32 {
+    match args.first().map(|s| s.as_str()) {
+        Some("inproc") => inproc(&args[1..], out),
+        Some("cli") => cli(&args[1..], out),
+        Some("cmd") => cmd(&args[1..], out),
+        _ => {
+            eprintln!("usage: hx c06 inproc|cli|cmd ...");
+            2
+        }
+    }
 }
